@@ -30,6 +30,13 @@ std::string nest_bytes(int family, long d) {
         case 4: for (long i = 0; i < d; i++) s += (i & 1) ? "{\"a\":" : "["; s += "null"; for (long i = d - 1; i >= 0; i--) s += (i & 1) ? "}" : "]"; break;
         case 5: for (long i = 0; i < d; i++) s += "[1,"; break;
         case 6: for (long i = 0; i < d; i++) s += "[ "; for (long i = 0; i < d; i++) s += " ]"; break;
+        // wide (not deep) shapes: d siblings, each opening and closing a container -- depth accounting must be balanced
+        case 7: s = "["; for (long i = 0; i < d; i++) { if (i) s += ","; s += "[]"; } s += "]"; break;
+        case 8: s = "["; for (long i = 0; i < d; i++) { if (i) s += ","; s += "{}"; } s += "]"; break;
+        case 9: s = "["; for (long i = 0; i < d; i++) { if (i) s += ","; s += "[1]"; } s += "]"; break;
+        case 10: s = "{"; for (long i = 0; i < d; i++) { if (i) s += ","; s += "\"a\":{\"b\":2}"; } s += "}"; break;
+        case 11: s = "["; for (long i = 0; i < d; i++) { if (i) s += ","; s += "[[],{}]"; } s += "]"; break;
+        case 12: s = "{"; for (long i = 0; i < d; i++) { if (i) s += ","; s += "\"k\":[]"; } s += "}"; break;
     }
     return s;
 }
@@ -119,7 +126,8 @@ struct XParse : Engine {
             for (int b = 0; b < 256; b++) { std::string x(1, (char)b); emit(x); emit("\"" + x + "\""); emit("1" + x); emit("[1" + x + "]"); emit(x + "1"); emit("\"\\" + x + "\""); emit("{\"" + x + "\":0}"); }
         } else if (stage == "nest") {
             const long lim = CJSON_NESTING_LIMIT;
-            for (int fam = 0; fam < 7; fam++) for (long d : { 1L, 2L, 3L, 4L, 50L, lim - 1, lim, lim + 1, lim + 2, 2 * lim, 100000L }) {
+            for (int fam = 0; fam < 13; fam++) for (long d : { 1L, 2L, 3L, 4L, 50L, lim - 1, lim, lim + 1, lim + 2, 2 * lim, 100000L }) {
+                if (fam >= 7 && d == 100000L) d = 5 * lim + 3;
                 if (!pool_take()) continue;
                 static Case c; c.kind = K_NEST; c.iv[1] = fam; c.iv[2] = d; c.len = 0; pool_run(c);
             }
@@ -367,7 +375,7 @@ struct XParse : Engine {
         if (L.errors != errs0) V("safety", "allocator-misuse", L.first_error);
     }
     std::string describe(const Case& c) override {
-        if (c.kind == K_NEST) { static const char* fn[] = { "'['^d", "'['^d ']'^d", "'{\"a\":'^d", "'{\"a\":'^d 1 '}'^d", "alternating [ {\"a\": ^d null closers", "'[1,'^d", "'[ '^d ' ]'^d" }; return std::string("nesting family ") + fn[c.iv[1]] + " d=" + std::to_string(c.iv[2]); }
+        if (c.kind == K_NEST) { static const char* fn[] = { "'['^d", "'['^d ']'^d", "'{\"a\":'^d", "'{\"a\":'^d 1 '}'^d", "alternating [ {\"a\": ^d null closers", "'[1,'^d", "'[ '^d ' ]'^d", "'[' d x '[]' ']'", "'[' d x '{}' ']'", "'[' d x '[1]' ']'", "'{' d x '\"a\":{\"b\":2}' '}'", "'[' d x '[[],{}]' ']'", "'{' d x '\"k\":[]' '}'" }; return std::string("nesting family ") + fn[c.iv[1]] + " d=" + std::to_string(c.iv[2]); }
         return "\"" + printable(c.str().substr(0, 100)) + "\" (" + std::to_string(c.len) + " bytes)";
     }
 };
